@@ -79,6 +79,14 @@ def run(tier):
             lab = recs[note[0]]['_label']
             print(f'NOTE: export of {lab} differs from the native lattice model in {note[1]} '
                   '(not a violation; the property predicates decide)')
+    def _corrupt(r):
+        if 'raised' in r or len(r['stabs']) < 2:
+            return None
+        s0 = r['stabs'][0]
+        side = 'x' if s0['x'] else 'z'
+        s0[side] = s0[side][1:]
+        return r
+    n_self = common.binding_selftest('c01', 'C01_Data', [r for r in good if r['n'] >= 4], _corrupt)
     rc = v.finish()
     labels = sorted({r['_label'] for r in recs})
     nontrivial = len({r['_label'] for r in good if len(r['stabs']) > 0})
